@@ -197,6 +197,8 @@ def run(ctx):
     uf = ctx.fn(UPD)
     uev = W.ev(UPD)
     evs = uev.events_on(1)
+    # reads (`self.buf.len()` in a log line) and capacity management leave the content alone
+    evs = [e for e in evs if uf.blocks[e[0]].term["arg_tys"][e[2]].startswith("&mut") and callee_name(e[1]) not in ("reserve", "reserve_exact", "shrink_to_fit")]
     okupd = len(evs) == 1 and callee_name(evs[0][1]) in ("extend_from_slice", "extend") and evs[0][3][1] == ("buf",) \
         and uev.call_args(evs[0][0])[1] == ("param", UPD, 2) and not uf.in_loop(evs[0][0])
     ctx.check("predicate-integrity", "sign::MsgVerifier::update/appends-param", okupd,
